@@ -13,10 +13,11 @@ META = {
     "text": "Gallina model of Glyph::encode_xml_impl producing the event tree a reader gets back (element / attribute "
             "order and presence conditions, colour and code-point formatting, object libs under public.objectLibs, "
             "recursive key sorting, line-by-line lib re-indentation), composed with the reader model of C12. "
-            "Kernel-checked: attribute codecs of points, anchors, guidelines, components, images invert under the "
-            "library hypotheses; re-indentation is the identity exactly when no lib string or key holds a line break "
-            "(or the indent width is 0); notes survive exactly when trimmed and non-empty; witnesses refute the "
-            "full-strength statement. Every run compares, for generated glyphs x write options, the bytes norad wrote "
+            "Kernel-checked: the codecs of contours/points, anchors, guidelines, components, images invert under the "
+            "library hypotheses; the composite round trip holds for every valid glyph without libs "
+            "(C02_roundtrip_partial; glyphs with libs are covered by the correspondence only); re-indentation is the "
+            "identity exactly when no lib string or key holds a line break (or the indent width is 0); notes survive "
+            "exactly when trimmed and non-empty; witnesses refute the full-strength statements. Every run compares, for generated glyphs x write options, the bytes norad wrote "
             "(parsed by Python's expat) with the model's tree, and parse_raw of those bytes with the model's re-read.",
     "note": "Trusted: Coq kernel + VM; the hand-written models (tied by the differential run); byte-level rendering and "
             "escaping by quick-xml / plist (validated through expat on every case); std's number formatting and "
